@@ -99,8 +99,8 @@ def check_C15(tier, seed):
     out = Outcome("C15", tier, seed)
     run_workspace(out, "C15", tier)
     from .checks_index import run_index
-    run_index(out, ["get"], ["P322", "P222"] if tier == "quick" else ["P322", "P222", "P232", "P2222"], 3,
-              ["Prop_C06"], "C15", probe_alias=True)
+    run_index(out, ["get", "setnum"], ["P322", "P222"] if tier == "quick" else ["P322", "P222", "P232", "P2222"], 3,
+              ["Prop_C06", "Prop_C05"], "C15", probe_alias=True)
     from .checks_ctor import run_inputs
     run_inputs(out, "C15", tier)
     out.assumptions += [
